@@ -4,6 +4,7 @@ From InvokeVerif Require Import Corr.C18Corr Proofs.C07_fuel Proofs.C18_parser.
 From InvokeVerif Require Import Spec.C01Spec Proofs.C01_steps Proofs.C01_occ Proofs.C01_roundtrip
      Proofs.C01_final Proofs.C18_placement Proofs.C18_program Proofs.C18_values
      Proofs.C18_program_values Proofs.C18_overrides.
+From InvokeVerif Require Proofs.C01_widest2 Proofs.C18_wide.
 From InvokeVerif Require Model.ProgramTypes Model.ProgramModel.
 
 (** Remainder (full): everything after the first bare "--" is the remainder,
@@ -269,6 +270,82 @@ Theorem C18_program_prefix_placement_equiv_partial :
       g_core gf = g_core gp /\ g_tasks gf = g_tasks gp /\ g_tasks gp = expected cs inv /\
       g_remainder gf = g_remainder gp.
 Proof. exact program_prefix_placement_equiv. Qed.
+
+(** The same over the WIDE task fragment (Proofs/C18_wide.v): the invocation may
+    use everything [C01_spell_roundtrip_partial_widest2] covers -- positionals
+    by position, counters repeated or stacked, clusters, glued values,
+    optional-value flags with their value or bare, dash-leading values.  The
+    core prefix [os] (same admissible options, same spellings on both sides) is
+    moved from the front to after the items [items1] of ANY call, where
+    [placement_ok c items1]: no required positional of the task is still missing
+    there and the last item is not a bare optional-value flag -- exactly the
+    complement of F-C18b and F-C18c on this fragment.  Task-parsing pass:
+    literally the same parse result. *)
+Theorem C18_prefix_placement_equiv_wide_partial :
+  forall cs ic os calls1 t asn items1 items2 calls2 c,
+    let inv := calls1 ++ mkCall t asn (items1 ++ items2) :: calls2 in
+    C01_widest2.guard_wide2 cs ic inv = true ->
+    nth_error cs t = Some c ->
+    C18_wide.placement_ok c items1 = true ->
+    forallb (copt_free cs c) os = true ->
+    copts_ok cs (rc_args (init_ctx ic)) os = true ->
+    exists res,
+      parser_parse cs (Some ic) false (flat_map spell_copt os ++ spell cs inv) = Ok res /\
+      parser_parse cs (Some ic) false
+        (spell cs calls1 ++ (asn :: flat_map (spell_item c) items1)
+         ++ flat_map spell_copt os ++ flat_map (spell_item c) items2 ++ spell cs calls2)
+        = Ok res /\
+      map obs_of_ctx (tl (pr_ctxs res)) = expected cs inv.
+Proof. exact C18_wide.wide_prefix_placement_equiv_closed. Qed.
+
+(** ... and through both passes of Program and _update_core_context. *)
+Theorem C18_program_prefix_placement_equiv_wide_partial :
+  forall cs ic os calls1 t asn items1 items2 calls2 c,
+    let inv := calls1 ++ mkCall t asn (items1 ++ items2) :: calls2 in
+    C01_widest2.guard_wide2 cs ic inv = true ->
+    nth_error cs t = Some c ->
+    C18_wide.placement_ok c items1 = true ->
+    forallb (copt_free cs c) os = true ->
+    copts_ok cs (rc_args (init_ctx ic)) os = true ->
+    exists gf gp,
+      prog_obs ic cs (flat_map spell_copt os ++ spell cs inv) = Ok gf /\
+      prog_obs ic cs (spell cs calls1 ++ (asn :: flat_map (spell_item c) items1)
+                      ++ flat_map spell_copt os
+                      ++ flat_map (spell_item c) items2 ++ spell cs calls2) = Ok gp /\
+      g_core gf = g_core gp /\ g_tasks gf = g_tasks gp /\ g_tasks gp = expected cs inv /\
+      g_remainder gf = g_remainder gp.
+Proof. exact C18_wide.program_wide_placement_equiv. Qed.
+
+(** Non-vacuity: "-e -T5 --config=x.yml" placed inside the second call of
+    "test -e=--all --fast build thing --log --no-clean | --out-dir -x -vvj 8 b other -l"
+    (after a bare optional-value flag that was completed by --no-clean). *)
+Example C18_wide_placement_inhabited :
+  let cs := [C01_wide_final.ex_build; C01_wide_final.ex_test] in
+  let calls1 := [mkCall 1 "test" [One (mkOcc 0 1 FEq (VS "--all")); One (mkOcc 1 0 FBare (VB true))]] in
+  let items1 := [One (mkOcc 0 0 FPos (VS "thing")); One (mkOcc 4 0 FBare VT);
+                 One (mkOcc 3 0 FInv (VB false))] in
+  let items2 := [One (mkOcc 2 0 FNext (VS "-x"));
+                 Cluster [mkOcc 1 1 FStack (VN 2); mkOcc 5 1 FNext (VS "8")]] in
+  let calls2 := [mkCall 0 "b" [One (mkOcc 0 0 FPos (VS "other")); One (mkOcc 4 1 FBare VT)]] in
+  let inv := calls1 ++ mkCall 0 "build" (items1 ++ items2) :: calls2 in
+  C01_widest2.guard_wide2 cs core_ctx inv = true /\
+  C18_wide.placement_ok C01_wide_final.ex_build items1 = true /\
+  forallb (copt_free cs C01_wide_final.ex_build) C18_wide.ex_os = true /\
+  copts_ok cs (rc_args (init_ctx core_ctx)) C18_wide.ex_os = true /\
+  spell cs calls1 ++ ("build" :: flat_map (spell_item C01_wide_final.ex_build) items1)
+    ++ flat_map spell_copt C18_wide.ex_os ++ flat_map (spell_item C01_wide_final.ex_build) items2
+    ++ spell cs calls2
+  = ["test"; "-e=--all"; "--fast"; "build"; "thing"; "--log"; "--no-clean";
+     "-e"; "-T5"; "--config=x.yml"; "--out-dir"; "-x"; "-vvj"; "8"; "b"; "other"; "-l"] /\
+  exists gp,
+    prog_obs core_ctx cs
+      ["test"; "-e=--all"; "--fast"; "build"; "thing"; "--log"; "--no-clean";
+       "-e"; "-T5"; "--config=x.yml"; "--out-dir"; "-x"; "-vvj"; "8"; "b"; "other"; "-l"] = Ok gp /\
+    kw_get "echo" (g_core gp) = Some (ABool true) /\
+    kw_get "command-timeout" (g_core gp) = Some (AInt 5) /\
+    kw_get "config" (g_core gp) = Some (AStr "x.yml") /\
+    g_tasks gp = expected cs inv.
+Proof. exact C18_wide.wide_placement_example. Qed.
 
 (** C18 x C15 (Model/ProgramModel.v, Program.update_config): the core values
     determine the *overrides* configuration level and the runtime configuration
